@@ -304,6 +304,7 @@ Definition attr_ok (a : config_attr) : bool :=
   mem_str (ca_struct a) validate_methods &&
   (attr_mentioned a || String.eqb (ca_type a) "bool" || attr_reviewed a).
 
-(** a reviewed reason is only kept for an option that exists and is still NOT looked at *)
+(** a reviewed reason is only kept for an option that exists (an option that validate starts to look at later keeps its
+    row: adding validation is not an alarm) *)
 Definition unvalidated_row_live (r : string * string * string) : bool :=
-  existsb (fun a => String.eqb (fst (fst r)) (ca_struct a) && String.eqb (snd (fst r)) (ca_field a) && negb (attr_mentioned a)) config_attrs.
+  existsb (fun a => String.eqb (fst (fst r)) (ca_struct a) && String.eqb (snd (fst r)) (ca_field a)) config_attrs.
